@@ -13,8 +13,12 @@ mod h10 {
     pub use average::Histogram10 as Histogram;
 }
 average::define_histogram!(h100, 100);
+average::define_histogram!(h7, 7);
+average::define_histogram!(h8, 8);
+average::define_histogram!(h64, 64);
+average::define_histogram!(h256, 256);
 
-pub const LENS: [usize; 6] = [1, 2, 3, 4, 10, 100];
+pub const LENS: [usize; 10] = [1, 2, 3, 4, 7, 8, 10, 64, 100, 256];
 
 pub trait Hist: Send {
     fn len(&self) -> usize;
@@ -152,6 +156,10 @@ hist_impl!(h3);
 hist_impl!(h4);
 hist_impl!(h10);
 hist_impl!(h100);
+hist_impl!(h7);
+hist_impl!(h8);
+hist_impl!(h64);
+hist_impl!(h256);
 
 #[cfg(feature = "nightly")]
 pub fn from_ranges(len: usize, edges: &[f64]) -> Result<Box<dyn Hist>, InvalidRangeError> {
@@ -173,6 +181,10 @@ pub fn from_ranges(len: usize, edges: &[f64]) -> Result<Box<dyn Hist>, InvalidRa
         4 => Box::new(h4::Histogram::from_ranges(it)?),
         10 => Box::new(h10::Histogram::from_ranges(it)?),
         100 => Box::new(h100::Histogram::from_ranges(it)?),
+        7 => Box::new(h7::Histogram::from_ranges(it)?),
+        8 => Box::new(h8::Histogram::from_ranges(it)?),
+        64 => Box::new(h64::Histogram::from_ranges(it)?),
+        256 => Box::new(h256::Histogram::from_ranges(it)?),
         _ => panic!("harness: unsupported LEN"),
     })
 }
@@ -186,6 +198,10 @@ pub fn with_const_width(len: usize, a: f64, b: f64) -> Box<dyn Hist> {
         4 => Box::new(h4::Histogram::with_const_width(a, b)),
         10 => Box::new(h10::Histogram::with_const_width(a, b)),
         100 => Box::new(h100::Histogram::with_const_width(a, b)),
+        7 => Box::new(h7::Histogram::with_const_width(a, b)),
+        8 => Box::new(h8::Histogram::with_const_width(a, b)),
+        64 => Box::new(h64::Histogram::with_const_width(a, b)),
+        256 => Box::new(h256::Histogram::with_const_width(a, b)),
         _ => panic!("harness: unsupported LEN"),
     }
 }
@@ -302,6 +318,10 @@ pub mod cg {
     hist_impl_const!(4);
     hist_impl_const!(10);
     hist_impl_const!(100);
+    hist_impl_const!(7);
+    hist_impl_const!(8);
+    hist_impl_const!(64);
+    hist_impl_const!(256);
 
     fn conv(e: CErr) -> InvalidRangeError {
         match e {
@@ -320,6 +340,10 @@ pub mod cg {
             4 => Box::new(CH::<4>::from_ranges(it).map_err(conv)?),
             10 => Box::new(CH::<10>::from_ranges(it).map_err(conv)?),
             100 => Box::new(CH::<100>::from_ranges(it).map_err(conv)?),
+            7 => Box::new(CH::<7>::from_ranges(it).map_err(conv)?),
+            8 => Box::new(CH::<8>::from_ranges(it).map_err(conv)?),
+            64 => Box::new(CH::<64>::from_ranges(it).map_err(conv)?),
+            256 => Box::new(CH::<256>::from_ranges(it).map_err(conv)?),
             _ => panic!("harness: unsupported LEN"),
         })
     }
@@ -332,6 +356,10 @@ pub mod cg {
             4 => Box::new(CH::<4>::with_const_width(a, b)),
             10 => Box::new(CH::<10>::with_const_width(a, b)),
             100 => Box::new(CH::<100>::with_const_width(a, b)),
+            7 => Box::new(CH::<7>::with_const_width(a, b)),
+            8 => Box::new(CH::<8>::with_const_width(a, b)),
+            64 => Box::new(CH::<64>::with_const_width(a, b)),
+            256 => Box::new(CH::<256>::with_const_width(a, b)),
             _ => panic!("harness: unsupported LEN"),
         }
     }
